@@ -1066,6 +1066,11 @@ def parse_primary_expr(lexer, unary_minus=False):
                 or lexer.peekn(1, "end", "keyword")
                 or lexer.peekn(1, "catch", "keyword")
                 or lexer.peekn(1, "finally", "keyword")
+                or lexer.peekn(1, "else", "keyword")
+                or lexer.peekn(1, "elif", "keyword")
+                or lexer.peekn(1, ")", "interpunction")
+                or lexer.peekn(1, "]", "interpunction")
+                or lexer.peekn(1, ",", "interpunction")
             ):
                 # a value-less return; the ; after it is as optional as
                 # after any other last statement of a block
